@@ -509,7 +509,7 @@ def judge_merge(ctx, case, im):
 def long_line(rng):
     """a polyline with more points than a narrow integer type can index, cut into 2-3 contiguous pieces that are small
     enough for their own (piece-local) connectivity to be stored in such a type"""
-    n = rng.randint(130, 280)
+    n = rng.choice([rng.randint(130, 280), rng.randint(262, 330)])      # (beyond 255: also unsigned 8-bit indices overflow)
     pts = [[i * 8, (i % 3) * 8, 0] for i in range(n + 1)]
     cells = [[3, [i, i + 1]] for i in range(n)]
     G = {"kind": "longline", "points": pts, "cells": cells, "pf": [_field(rng, "u", n + 1)], "cf": [_field(rng, "c", n)]}
@@ -521,14 +521,16 @@ def long_line(rng):
     for g in groups:
         lp = sorted({p for c in g for p in G["cells"][c][1]})
         fit = [dt for dt, mx in (("int8", 127), ("uint8", 255), ("int16", 32767), ("uint16", 65535), ("int32", 2 ** 31 - 1)) if len(lp) - 1 <= mx]
-        pieces.append({"cells": g, "points": lp, "types": [3], "conn_dtype": fit[0] if rng.random() < 0.7 else rng.choice(fit[:3])})
+        unsigned = [dt for dt in fit if dt.startswith("u")]
+        dt = fit[0] if rng.random() < 0.4 else (unsigned[0] if unsigned and rng.random() < 0.6 else rng.choice(fit[:3]))
+        pieces.append({"cells": g, "points": lp, "types": [3], "conn_dtype": dt})
     return G, {"mode": "contiguous", "pieces": pieces}
 
 
 def stream_merge(ctx, n):
     rng = ctx.rng
     cases = []
-    for _ in range(max(4, n // 150)):
+    for _ in range(max(10, n // 100)):
         G, part = long_line(rng)
         cases.append((G, part, 3))
     for _ in range(n):
